@@ -17,6 +17,9 @@ func condMet(sc *Scenario, t *Truth, dep, c string, seq int, depth int) (bool, s
 	if len(sc.ToRun) > 0 {
 		return true, "" // selection may have disabled it: handled by C07
 	}
+	if sd := t.firstShutdownSeq(sc); sd >= 0 && sd < seq {
+		return true, "" // a project shutdown has begun: launches after it are C03's business
+	}
 	reps := ReplicaNames(d.Name, d.Replicas)
 	for _, rep := range reps {
 		insts := t.ByRep[rep]
@@ -36,32 +39,42 @@ func condMet(sc *Scenario, t *Truth, dep, c string, seq int, depth int) (bool, s
 		}
 		switch c {
 		case "process_completed", "process_completed_successfully":
-			var last *Inst
-			for _, in := range insts {
-				if in.ExecSeq < seq {
-					last = in
+			// a "final" exit is one that is not followed by an automatic relaunch: the
+			// process had finished (a later explicit start by the user begins a new life
+			// and does not un-finish it)
+			var last, fin *Inst
+			for i, in := range insts {
+				if in.ExecSeq >= seq {
+					break
+				}
+				last = in
+				if in.ExitSeq >= 0 && in.ExitSeq < seq {
+					final := true
+					if i+1 < len(insts) && !t.explicitStartCovering(rep, in.ExitSeq, insts[i+1].ExecSeq) {
+						final = false
+					}
+					if final {
+						fin = in
+					}
 				}
 			}
-			if last == nil {
+			if fin == nil {
 				if termNoCmd {
 					if c == "process_completed_successfully" {
 						return false, fmt.Sprintf("%s ended without success (skipped or failed to start)", rep)
 					}
 					continue
 				}
-				return false, fmt.Sprintf("%s has not been launched yet", rep)
-			}
-			if last.ExitSeq < 0 || last.ExitSeq > seq {
-				return false, fmt.Sprintf("%s (pid %d) is still running", rep, last.Pid)
-			}
-			if c == "process_completed_successfully" && last.Code != 0 {
-				return false, fmt.Sprintf("%s exited with code %d", rep, last.Code)
-			}
-			// it must not be relaunched automatically afterwards (then it had not finished)
-			for _, in := range insts {
-				if in.ExecSeq > seq && !t.explicitStartCovering(rep, last.ExitSeq, in.ExecSeq) {
-					return false, fmt.Sprintf("%s had exited but was relaunched automatically afterwards (seq %d): it had not finished", rep, in.ExecSeq)
+				if last == nil {
+					return false, fmt.Sprintf("%s has not been launched yet", rep)
 				}
+				if last.ExitSeq < 0 || last.ExitSeq > seq {
+					return false, fmt.Sprintf("%s (pid %d) is still running", rep, last.Pid)
+				}
+				return false, fmt.Sprintf("%s had exited but was relaunched automatically afterwards: it had not finished", rep)
+			}
+			if c == "process_completed_successfully" && fin.Code != 0 {
+				return false, fmt.Sprintf("%s exited with code %d", rep, fin.Code)
 			}
 		case "process_healthy":
 			ok := false
@@ -97,7 +110,8 @@ func condMet(sc *Scenario, t *Truth, dep, c string, seq int, depth int) (bool, s
 				return false, fmt.Sprintf("%s has not written its ready line %q yet", rep, d.ReadyLine)
 			}
 		case "process_started", "":
-			if depth > 8 {
+			if depth > 8 || termNoCmd {
+				// Skipped / failed to start: it is no longer waiting on anything
 				continue
 			}
 			// released from all of its own dependencies
@@ -265,7 +279,7 @@ func checkC05(sc *Scenario, t *Truth) []Violation {
 						why = fmt.Sprintf("%s exited with code %d", dep, f.lastCode)
 					}
 				case "process_healthy", "process_log_ready":
-					if depSkipped || f.errored {
+					if (depSkipped || f.errored) && !f.everReady {
 						why = fmt.Sprintf("%s was skipped or failed to start and never became ready", dep)
 					} else if f.ran && !f.everReady && (sd < 0 || f.finalExit < sd) {
 						why = fmt.Sprintf("%s ended without ever becoming ready", dep)
@@ -285,6 +299,9 @@ func checkC05(sc *Scenario, t *Truth) []Violation {
 			continue
 		}
 		if insts := t.ByRep[name]; len(insts) > 0 {
+			if sd >= 0 && sd < insts[0].ExecSeq {
+				continue // launched after a project shutdown began: C03's business
+			}
 			// launched although a dependency had failed: only a violation if the launch came after the failure was final
 			vs = append(vs, Violation{"C05", "launched-despite-failed-dependency", depCond(unsat[name]),
 				fmt.Sprintf("%s was launched (seq %d) although its dependency can never satisfy the condition: %s", name, insts[0].ExecSeq, unsat[name]), insts[0].ExecSeq})
